@@ -66,7 +66,7 @@ def tree_shape(inv, root):
 def _run(sc, r, scratch, i):
     d = scratch.case_dir("ext4")
     home = os.path.join(d, "home")
-    troot, roots_abs = ddcase.materialise(sc, d)
+    troot, roots_abs = ddcase.materialise(sc, d, scratch)
     op, cfg = sc["op"], sc["cfg"]
     backup = os.path.join(d, "backup")
     subprocess.run(["cp", "-a", troot, backup], check=True)
@@ -168,13 +168,27 @@ def _run(sc, r, scratch, i):
     if dsum is None or rsum is None or dsum != rsum:
         witness["summaries"] = {"dry": dsum, "real": rsum}
         return [violation("C11:%s:summary-differs" % op, "dry-run summary %s, real-run summary %s" % (dsum, rsum), witness)]
-    counts = {"ops_compared": len(sops), "ops": [op]}
+    counts = {"ops_compared": len(sops), "ops": [op], "trees_on_two_file_systems": 1 if sc.get("mounted") else 0}
     # (3) execute the script with bash on a restored tree
     if op in ("remove", "link", "softlink"):
         inv1 = inventory.take(troot)
         t1 = tree_shape(inv1, troot)
-        common.rmtree(troot)
-        subprocess.run(["cp", "-a", backup, troot], check=True)
+        if sc.get("mounted"):
+            # the second root is a mount point: empty it instead of removing it, then copy the backup over the skeleton
+            for name in os.listdir(fse(troot)):
+                p_ = os.path.join(fse(troot), name)
+                if os.path.ismount(p_):
+                    for inner in os.listdir(p_):
+                        q_ = os.path.join(p_, inner)
+                        common.rmtree(q_) if os.path.isdir(q_) and not os.path.islink(q_) else os.unlink(q_)
+                elif os.path.isdir(p_) and not os.path.islink(p_):
+                    common.rmtree(p_)
+                else:
+                    os.unlink(p_)
+            subprocess.run(["cp", "-a", backup + "/.", troot + "/"], check=True)
+        else:
+            common.rmtree(troot)
+            subprocess.run(["cp", "-a", backup, troot], check=True)
         env = {"PATH": "/usr/bin:/bin", "HOME": "/nonexistent-fcv", "LC_ALL": "C"}
         p = subprocess.run(["/bin/bash", "--norc", "--noprofile", "-s"], input=script, env=env, cwd=troot,
                            stdout=subprocess.PIPE, stderr=subprocess.PIPE, timeout=120)
